@@ -608,6 +608,118 @@ fn embedded_history(rng: &mut Rng, next_id: &mut u64, rep: &Report) -> bool {
 }
 
 // ------------------------------------------------------------------------------------------
+// a mutex-shared embedded aggregate closed while merges are in progress on other threads
+
+mod contended {
+    use super::*;
+    use metrique_aggregation::traits::AggregateValue;
+
+    /// a sum whose every merge keeps the sink's lock for ~150 microseconds
+    pub struct SlowSum;
+    impl AggregateValue<u64> for SlowSum {
+        type Aggregated = u64;
+        fn insert(acc: &mut u64, v: u64) {
+            if !is_miri() {
+                let t = Instant::now();
+                while t.elapsed() < Duration::from_micros(150) {
+                    std::hint::spin_loop();
+                }
+            }
+            *acc += v;
+        }
+    }
+
+    #[aggregate]
+    #[metrics]
+    pub struct SlowPart {
+        #[aggregate(strategy = SlowSum)]
+        qbytes: u64,
+        #[aggregate(strategy = Histogram<u64, SortAndMerge>)]
+        qlat: u64,
+    }
+
+    #[metrics]
+    struct SlowReq {
+        #[metrics(flatten)]
+        parts: MutexSink<Aggregate<SlowPart>>,
+        req_id: u64,
+    }
+
+    pub fn history(rng: &mut Rng, next_id: &mut u64, rep: &Report) -> bool {
+        let out = CountingSink::new();
+        let req = SlowReq { parts: MutexSink::new(Aggregate::default()), req_id: 9 };
+        let mut mk = |rng: &mut Rng| {
+            *next_id += 1;
+            (*next_id, rng.below(1000))
+        };
+        // phase 1: merges that have completed before the close begins
+        let before: Vec<(u64, u64)> = (0..1 + rng.below(3)).map(|_| mk(rng)).collect();
+        for (id, b) in &before {
+            req.parts.merge(SlowPart { qbytes: *b, qlat: *id }.close());
+        }
+        // phase 2: merges racing with the close (each may or may not make it)
+        let nthreads = 1 + rng.usize_below(3);
+        let racing: Vec<Vec<(u64, u64)>> = (0..nthreads).map(|_| (0..1 + rng.below(3)).map(|_| mk(rng)).collect()).collect();
+        let gate = Arc::new(Barrier::new(nthreads + 1));
+        let threads: Vec<_> = racing
+            .iter()
+            .cloned()
+            .map(|mine| {
+                let (sink, gate) = (req.parts.clone(), gate.clone());
+                std::thread::spawn(move || {
+                    gate.wait();
+                    for (id, b) in mine {
+                        sink.merge(SlowPart { qbytes: b, qlat: id }.close());
+                    }
+                })
+            })
+            .collect();
+        gate.wait();
+        // let a merge get hold of the lock first, most of the time
+        for _ in 0..rng.below(2000) {
+            std::hint::spin_loop();
+        }
+        drop(req.append_on_drop(out.clone()));
+        for t in threads {
+            let _ = t.join();
+        }
+        let apps = out.take();
+        let a = match apps.as_slice() {
+            [a] => match parse(a, "q") {
+                Ok(a) => a,
+                Err(e) => {
+                    rep.violation("malformed-aggregate", json!({"error": e}));
+                    return false;
+                }
+            },
+            _ => {
+                rep.violation("embedded-aggregate-entry-count", json!({"entries": apps.len()}));
+                return false;
+            }
+        };
+        let got: Vec<u64> = a.lats.iter().flat_map(|(v, n)| std::iter::repeat_n(*v, *n as usize)).collect();
+        let all: HashMap<u64, u64> = before.iter().chain(racing.iter().flatten()).copied().collect();
+        let missing: Vec<u64> = before.iter().map(|p| p.0).filter(|id| !got.contains(id)).collect();
+        let unknown: Vec<u64> = got.iter().copied().filter(|id| !all.contains_key(id)).collect();
+        let sum: u64 = got.iter().map(|id| all.get(id).copied().unwrap_or(0)).sum();
+        let dup = got.len() != got.iter().collect::<HashSet<_>>().len();
+        if !missing.is_empty() || !unknown.is_empty() || dup || a.bytes.unwrap_or(0) != sum {
+            rep.violation(
+                "embedded-aggregate-wrong",
+                json!({"what": "a MutexSink<Aggregate<_>> closed (entry emitted) while other threads were merging into it: everything merged BEFORE the close began must be in the emitted aggregate, later merges may or may not be, sums must match the ids present",
+                       "merged_before_the_close": before.len(), "racing_merges": racing.iter().map(|r| r.len()).sum::<usize>(), "ids_in_aggregate": got.len(),
+                       "missing_ids_merged_before": missing, "unknown_ids": unknown, "sum_field": a.bytes, "sum_of_the_ids_present": sum}),
+            );
+            return false;
+        }
+        rep.count("contended_close_histories", 1);
+        rep.count("contended_close_racing_merges_included", (got.len() - before.len()) as u64);
+        rep.count("inputs_merged", got.len() as u64);
+        true
+    }
+}
+
+// ------------------------------------------------------------------------------------------
 // worker sink
 
 /// wraps the inner aggregator moved into the worker thread: counts flush calls, flags Drop
@@ -726,7 +838,21 @@ fn worker_history(rng: &mut Rng, next_id: &mut u64, rep: &Report) -> bool {
     }
     let flush_calls_before_drop = flushes.load(Ordering::SeqCst);
     let t_drop = ticket();
-    drop(sink); // last handle
+    if rng.bool() {
+        // the last two handles go at the same moment, on two threads
+        let other = sink.clone();
+        let gate = Arc::new(Barrier::new(2));
+        let g2 = gate.clone();
+        let t = std::thread::spawn(move || {
+            g2.wait();
+            drop(other);
+        });
+        gate.wait();
+        drop(sink);
+        let _ = t.join();
+    } else {
+        drop(sink); // last handle
+    }
     let closed = progress_wait(|| dropped.load(Ordering::SeqCst), default_stall());
     if !closed {
         rep.violation(
@@ -836,11 +962,12 @@ fn main() {
                     rounds += 1;
                     rep.eval();
                     let before = next_id;
-                    let kind = rounds % 6;
+                    let kind = rounds % 7;
                     let ok = match kind {
                         0 => direct_history(&mut rng, &mut next_id, rep),
                         4 => coarse::history(&mut rng, &mut next_id, rep),
                         5 => nested::history(&mut rng, rep),
+                        6 => contended::history(&mut rng, &mut next_id, rep),
                         1 => tee_history(&mut rng, &mut next_id, rep),
                         2 => embedded_history(&mut rng, &mut next_id, rep),
                         _ => worker_history(&mut rng, &mut next_id, rep),
@@ -850,10 +977,10 @@ fn main() {
                     }
                     rep.distinct(Fnv::new().u64(kind).u64(next_id - before).u64(rng.next_u64() % 64).finish());
                     if rep.want_sample() && rounds % 50 == 3 {
-                        let kind_name = ["KeyedAggregator", "TeeSink", "embedded/MutexSink", "WorkerSink", "KeyedAggregator with hash-colliding keys", "KeyedAggregator over nested distributions"][kind as usize];
+                        let kind_name = ["KeyedAggregator", "TeeSink", "embedded/MutexSink", "WorkerSink", "KeyedAggregator with hash-colliding keys", "KeyedAggregator over nested distributions", "MutexSink closed during merges"][kind as usize];
                         rep.sample(|| json!({"kind": kind_name, "inputs": next_id - before}));
                     }
-                    if tiny && rounds >= 6 {
+                    if tiny && rounds >= 7 {
                         break;
                     }
                 }
